@@ -25,6 +25,10 @@ func main() {
 		cmdRun(os.Args[2:])
 	case "claimid":
 		cmdClaimId(os.Args[2:])
+	case "replicas":
+		cmdReplicas(os.Args[2:])
+	case "genesis":
+		cmdGenesis(os.Args[2:])
 	case "connector":
 		world.SetAddrCfg()
 		cmdConnector(os.Args[2:])
@@ -42,6 +46,7 @@ func cmdRun(args []string) {
 	in := fs.String("scripts", "", "ndjson scripts file")
 	out := fs.String("out", "", "trace output file")
 	digest := fs.Bool("digest", false, "include raw state digests")
+	nopost := fs.Bool("nopost", false, "do not record the projected state (totality runs)")
 	fs.Parse(args)
 	f, err := os.Open(*in)
 	if err != nil {
@@ -61,7 +66,7 @@ func cmdRun(args []string) {
 	bw := bufio.NewWriterSize(of, 1<<20)
 	dead := 0
 	for _, s := range scripts {
-		w, err := runner.Run(s, world.DefaultCfg(), runner.Options{Digest: *digest}, bw)
+		w, err := runner.Run(s, world.DefaultCfg(), runner.Options{Digest: *digest, NoPost: *nopost}, bw)
 		if err != nil {
 			fmt.Fprintln(os.Stderr, "script", s.Id, err)
 			os.Exit(2)
